@@ -471,28 +471,112 @@ def run_pass_case(case):
     res = []
     for op in snaxrun.parse(out).walk():
         if isinstance(op, dart.ScheduleOp):
-            res.append({"bounds": [int(b.value.data) for b in op.bounds], "ops": [map_to_json(pm.data) for pm in op.patterns]})
+            res.append({"bounds": [int(b.value.data) for b in op.bounds], "ops": [map_to_json(pm.data) for pm in op.patterns],
+                        "maps": [[of_x(r) for r in pm.data.results] for pm in op.patterns]})   # the emitted expressions themselves
         elif isinstance(op, dart.OperationOp):
             res.append({"unscheduled": True})
     return res
 
 
+RESCALE_ATTRS = ("{input_zp = 0 : i32, output_zp = 0 : i32, multiplier = array<i32: 1>, shift = array<i32: 1>, "
+                 "max_int = 127 : i32, min_int = -128 : i32, double_round = true}")
+
+
+def gemmx_body_text(body):
+    """a chain of dart.generic ops, one per kernel name, then the yield"""
+    lines = []
+    for i, k in enumerate(body):
+        src = f"%v{i - 1}" if i > 0 else "%s2"
+        if k == "qmac":
+            lines.append(f'    %v{i} = "dart.generic"(%s0, %s1, %c0, %c0) <{{library_call = "snax_gemmx"}}> ({{\n'
+                         f"    ^bb1(%a{i} : i8, %b{i} : i8, %p{i} : i32, %q{i} : i32, %z{i} : i32):\n"
+                         f"      %w{i} = kernel.qmac %a{i}, %b{i} zp_lhs : %p{i} zp_rhs : %q{i} : i8, i8, i32, i32 -> i32\n"
+                         f"      dart.yield %w{i} : i32\n    }}) : (!dart.stream<i8>, !dart.stream<i8>, i32, i32) -> !dart.stream<i32>")
+        elif k == "mac":
+            lines.append(f'    %v{i} = "dart.generic"(%s0, %s1) <{{library_call = "snax_gemmx"}}> ({{\n'
+                         f"    ^bb1(%a{i} : i8, %b{i} : i8, %z{i} : i32):\n      %w{i} = kernel.mac %a{i}, %b{i} : i8, i8 -> i32\n"
+                         f"      dart.yield %w{i} : i32\n    }}) : (!dart.stream<i8>, !dart.stream<i8>) -> !dart.stream<i32>")
+        elif k == "rescale":
+            lines.append(f'    %v{i} = "dart.generic"({src}) <{{library_call = "snax_gemmx"}}> ({{\n    ^bb1(%a{i} : i32, %z{i} : i32):\n'
+                         f'      %w{i} = "kernel.rescale"(%a{i}) {RESCALE_ATTRS} : (i32) -> i32\n'
+                         f"      dart.yield %w{i} : i32\n    }}) : (!dart.stream<i32>) -> !dart.stream<i32>")
+        else:
+            kop = "kernel.add" if k == "add" else "kernel.mul"
+            lines.append(f'    %v{i} = "dart.generic"({src}, %s2) <{{library_call = "snax_gemmx"}}> ({{\n'
+                         f"    ^bb1(%a{i} : i32, %b{i} : i32, %z{i} : i32):\n      %w{i} = {kop} %a{i}, %b{i} : i32, i32 -> i32\n"
+                         f"      dart.yield %w{i} : i32\n    }}) : (!dart.stream<i32>, !dart.stream<i32>) -> !dart.stream<i32>")
+    last = f"%v{len(body) - 1}" if body else "%s2"
+    lines.append(f"    dart.yield {last} : !dart.stream<i32>")
+    return "\n".join(lines)
+
+
+def real_template(case):
+    """the real get_template of the accelerator (non-default geometry through the constructor) on an operation whose
+    body is the given chain of kernels"""
+    import snaxrun
+    from snaxc.dialects import dart
+    if case["acc"] == "snax_alu":
+        from snaxc.accelerators.snax_alu import SNAXAluAccelerator
+        src = render_pass_module({"acc": "snax_alu", "ops": [{"bounds": [8], "maps": [[0], [0], [0]]}]})
+        acc = SNAXAluAccelerator()
+    else:
+        from snaxc.accelerators.snax_gemmx import SNAXGEMMXAccelerator
+        m = ("affine_map<(d0, d1, d2) -> (d0, d2)>, affine_map<(d0, d1, d2) -> (d2, d1)>, "
+             "affine_map<(d0, d1, d2) -> (d0, d1)>")
+        src = (f"func.func @f(%A : memref<16x16xi8>, %B : memref<16x16xi8>, %C : memref<16x16xi32>) {{\n"
+               f"  %c0 = arith.constant 0 : i32\n"
+               f'  "dart.operation"(%A, %B, %C) <{{patterns = [{m}], accelerator = "snax_gemmx", '
+               f"operandSegmentSizes = array<i32: 2, 1>}}> ({{\n"
+               f"  ^bb0(%s0 : !dart.stream<i8>, %s1 : !dart.stream<i8>, %s2 : !dart.stream<i32>):\n"
+               f"{gemmx_body_text(case['body'])}\n"
+               f"  }}) : (memref<16x16xi8>, memref<16x16xi8>, memref<16x16xi32>) -> ()\n  func.return\n}}")
+        g = case.get("geom")
+        acc = SNAXGEMMXAccelerator(m=g[0], n=g[1], k=g[2]) if g else SNAXGEMMXAccelerator()
+    op = next(o for o in snaxrun.parse(src).walk() if isinstance(o, dart.OperationOp))
+    t = acc.get_template(op)
+    bl = [[None if b is None else int(b) for b in p.bounds] for p in t]
+    return {"bounds": bl[0] if all(b == bl[0] for b in bl) else {"per_pattern": bl},
+            "ops": [{"A": [[int(x) for x in row] for row in p.pattern.A.tolist()], "b": [int(x) for x in p.pattern.b.tolist()]}
+                    for p in t]}
+
+
+def gen_template_case(rng):
+    if rng.random() < 0.15:
+        return {"kind": "template", "acc": "snax_alu"}
+    u = rng.random()
+    if u < 0.6:
+        body = rng.choice([["qmac"], ["mac"], ["qmac", "add"], ["mac", "add"], ["qmac", "rescale"], ["qmac", "add", "rescale"],
+                           ["rescale"], ["qmac", "rescale", "rescale"]])
+    else:
+        body = [rng.choice(["qmac", "mac", "add", "rescale", "other"]) for _ in range(rng.randint(0, 4))]
+    geom = None if rng.random() < 0.3 else [rng.choice([1, 2, 4, 8, 16]) for _ in range(3)]
+    return {"kind": "template", "acc": "snax_gemmx", "geom": geom, "body": body}
+
+
+def parse_collection_str(text):
+    """inverse of PatternCollection.__str__: per line the bounds ('?' = None / 0) and the printed affine map as (A, b)"""
+    import snaxrun
+    from xdsl.parser import Parser
+    out = []
+    for line in text.split("\n"):
+        bpart, mpart = line[1:line.index(")")], line[line.index(")") + 2:]
+        bounds = [None if t.strip() == "?" else int(t) for t in bpart.split(",")] if bpart.strip() else []
+        m = Parser(snaxrun.ctx(), f"affine_map<{mpart}>").parse_attribute().data
+        j = map_to_json(m)
+        out.append({"bounds": bounds, "A": j["A"], "b": j["b"]})
+    return out
+
+
 def template_of(case):
-    """the accelerator template, computed by the real helper and shipped to the model as data"""
+    """the accelerator template of the pass cases, from the MODEL's table (Model/Scheduler.lean: aluTemplate /
+    gemmxTemplate for the default 8x8x8 array and a (q)mac body); the table is tied to the real get_template by the
+    `template` correspondence stream of C16, so a changed get_template shows up as a disagreement AND in the oracles"""
     acc = case["acc"]
     if acc not in _TEMPLATES:
-        import snaxrun
-        from snaxc.dialects import dart
-        from snaxc.tools.snax_opt_main import SNAXOptMain
-        one = dict(case, ops=case["ops"][:1])
-        ctx = SNAXOptMain(args=["/dev/null", "--allow-unregistered-dialect"]).ctx
-        from xdsl.parser import Parser
-        mod = Parser(ctx, render_pass_module(one)).parse_module()
-        op = next(o for o in mod.walk() if isinstance(o, dart.OperationOp))
-        t = ctx.get_acc(acc).get_template(op)
-        _TEMPLATES[acc] = {"bounds": [None if b is None else int(b) for b in t[0].bounds],
-                           "ops": [{"A": [[int(x) for x in row] for row in p.pattern.A.tolist()],
-                                    "b": [int(x) for x in p.pattern.b.tolist()]} for p in t]}
+        import leandrv
+        args = {"acc": acc} if acc == "snax_alu" else {"acc": acc, "geom": [8, 8, 8], "body": ["qmac"]}
+        ans, = leandrv.run_batch([{"fn": "c16.template", "args": args}])
+        _TEMPLATES[acc] = ans["ok"]
     return _TEMPLATES[acc]
 
 
@@ -758,6 +842,9 @@ class SchedProp(Prop):
             }
             # what dart-scheduler writes into dart.schedule: every pattern as an AffineMap, read back with its constants
             out["to_map"] = guard(lambda: [map_to_json(p.pattern.to_affine_map()) for p in s])
+            # PatternCollection.__str__ / AccessPattern.__str__ (one line "(bounds) map" per operand), read back; max_dim
+            out["str"] = guard(lambda: parse_collection_str(str(s)))
+            out["max_dim"] = guard(lambda: int(s.max_dim))
             if "custom" in case:
                 out["clear_with"] = guard(lambda: of_sched(s.clear_unused_dims(tuple(case["custom"]))))
                 # PatternCollection.__eq__ / AffineTransform.__eq__: a schedule equals its canonical form iff nothing was dropped
@@ -781,8 +868,17 @@ class SchedProp(Prop):
             if case.get("idx") is not None:
                 kw["schedule_idx"] = case["idx"]
             return {"result": of_sched(scheduler(mk_tmpl(case["t"]), mk_sched(case["s"]), **kw))}
+        if kind == "template":
+            return {"template": real_template(case)}
         if kind == "pass":
-            return {"schedules": run_pass_case(case)}
+            out = {"schedules": run_pass_case(case)}
+            if len(case["ops"]) > 1:
+                # no state may survive from one operation / pass run to the next: every operation alone, in its own module and
+                # pass instance, must get the schedule it got inside the module; and a second run of the module the same output
+                out["alone"] = [run_pass_case(dict(case, ops=[op]))[0] for op in case["ops"]]
+                if sum(sum(op["bounds"]) for op in case["ops"]) % 3 == 0:     # a deterministic third of the modules
+                    out["again"] = run_pass_case(case)
+            return out
         if kind == "match":
             return {"matches": bool(mk_tmpl(case["t"]).matches(mk_sched(case["s"])))}
         if kind == "check":
@@ -821,6 +917,8 @@ class SchedProp(Prop):
                                                           "fuel": FUEL}, **({"exprs": [None if op_exprs(op, k) is None else parsed_exprs(len(op["bounds"]), op_exprs(op, k))
                                                                        for k in range(3)]} if op_has_exprs(op) else {}))}
                     for op in case["ops"] if not op.get("tensor")]
+        if kind == "template":
+            return [{"fn": "c16.template", "args": {"acc": case["acc"], "geom": case.get("geom") or [8, 8, 8], "body": case.get("body", [])}}]
         if kind == "match":
             return [{"fn": "c16.matches", "args": {"t": case["t"], "s": case["s"]}}]
         if kind == "check":
@@ -838,6 +936,8 @@ class SchedProp(Prop):
         if kind == "xform":
             m = dict(zip(["rotate", "tile", "add_dim", "clear", "canon", "inner", "image", "clear_with"], vals))
             m["to_map"] = [dict(o) for o in case["s"]["ops"]]   # emission is the identity on (A, b)
+            m["str"] = [{"bounds": [b if b else None for b in case["s"]["bounds"]], "A": o["A"], "b": o["b"]} for o in case["s"]["ops"]]
+            m["max_dim"] = len(case["s"]["bounds"])
             if "custom" in case:
                 m["eq_canon"] = m["canon"] == case["s"]   # equality of schedules = equality of (bounds, A, b)
                 m["eq_self"] = True
@@ -860,8 +960,13 @@ class SchedProp(Prop):
             for v in full:
                 if isinstance(v, dict) and "raised" in v:
                     return v
+            if len(case["ops"]) > 1:
+                m = {"schedules": full, "alone": full}
+                if sum(sum(op["bounds"]) for op in case["ops"]) % 3 == 0:
+                    m["again"] = full
+                return m
             return {"schedules": full}
-        key = {"backtrack": "results", "match": "matches", "check": "holds", "ocs": "holds"}[kind]
+        key = {"backtrack": "results", "match": "matches", "check": "holds", "ocs": "holds", "template": "template"}[kind]
         v = vals[0]
         if isinstance(v, dict) and "raised" in v:
             return v
@@ -955,7 +1060,7 @@ class C03(SchedProp):
             "bounds in {1,2,4}, entries {0,1,2}x{0,1}, templates 1-2 dims with bounds in {2,None}, rows in {0,1}")
 
     def cases(self, rng, tier):
-        nb, nx = (900, 900) if tier == "quick" else (6000, 6000)
+        nb, nx = (800, 800) if tier == "quick" else (6000, 6000)
         for _ in range(nx):
             yield gen_xform_case(rng)
         for _ in range(nb):
@@ -1019,10 +1124,15 @@ class C03(SchedProp):
             chk("canonicalize()", lambda: s.canonicalize())
             if isinstance(impl_out.get("to_map"), list):
                 # the emitted maps, evaluated with xDSL's own AffineMap.eval at every point of the box
-                pts = list(itertools.product(*[range(b) for b in case["s"]["bounds"]]))
+                pts = None
                 for j, p in enumerate(s):
                     m = p.pattern.to_affine_map()
                     A, b = case["s"]["ops"][j]["A"], case["s"]["ops"][j]["b"]
+                    trees = [of_x(r) for r in m.results]
+                    if not any(has_divmod(e) or has_dim_product(e) for e in trees) and map_to_json(m) == {"A": A, "b": b}:
+                        continue    # an affine expression with these unit responses agrees with A x + b at EVERY point
+                    if pts is None:
+                        pts = list(itertools.product(*[range(v) for v in case["s"]["bounds"]])) + [tuple(7 + 3 * i for i in range(n))]
                     for x in pts:
                         want = [sum(a * v for a, v in zip(row, x)) + c for row, c in zip(A, b)]
                         got = [int(v) for v in m.eval(list(x), [])]
@@ -1104,6 +1214,14 @@ class C03(SchedProp):
             scheds = impl_out["schedules"]
             if len(scheds) != len(case["ops"]):
                 return [{"what": f"{len(case['ops'])} operations but {len(scheds)} ops after dart-scheduler", "finding": None}]
+            for key, what in (("alone", "than when it is the only operation of its module"), ("again", "than in a second run of the same module")):
+                if key in impl_out:
+                    for i, (a, b) in enumerate(zip(scheds, impl_out[key])):
+                        if a != b:
+                            out.append({"what": f"dart-scheduler keeps state: operation #{i} of {len(scheds)} (bounds {case['ops'][i]['bounds']}) "
+                                                f"gets a different dart.schedule (bounds {a.get('bounds')}) {what} (bounds {b.get('bounds')})",
+                                        "finding": None})
+                            break
             for i, (op, sj) in enumerate(zip(case["ops"], scheds)):
                 if "unscheduled" in sj:
                     if not op.get("tensor"):
